@@ -151,7 +151,9 @@ def run_example_case(case, st):
 def checks():
     return [
         HypCheck(
-            'foreign-files', lambda: foreign.docs(unknown_options=True),
+            'foreign-files', lambda: foreign.docs(
+                unknown_options=True,
+                extra_codecs=('utf-7', 'iso2022_jp', 'hz')),
             run_defect_case,
             budget={'quick': (16, 150), 'thorough': (16, 4000)},
             rule='well-formed files from an independent spec-derived '
